@@ -439,18 +439,18 @@ class Interp:
         if isinstance(it, PDict):
             if it.is_sym():
                 self.unsupported("iteration over symbolic dict", node)
-            return self.world.order(self, [k for k, _ in it.entries], it)
+            return _GuardedIter(self, it, self.world.order(self, [k for k, _ in it.entries], it), node)
         if isinstance(it, PSet):
-            return self.world.order(self, list(it.items), it)
+            return _GuardedIter(self, it, self.world.order(self, list(it.items), it), node)
         if isinstance(it, DictView):
             if it.d.is_sym():
                 self.unsupported("iteration over symbolic dict", node)
             ents = self.world.order(self, list(it.d.entries), it.d)
             if it.kind == "keys":
-                return [k for k, _ in ents]
+                return _GuardedIter(self, it.d, [k for k, _ in ents], node)
             if it.kind == "values":
-                return [v for _, v in ents]
-            return [(k, v) for k, v in ents]
+                return _GuardedIter(self, it.d, [v for _, v in ents], node)
+            return _GuardedIter(self, it.d, [(k, v) for k, v in ents], node)
         if type(it).__name__ == "IterVal":
             return it.rest()
         if isinstance(it, GenVal):
@@ -1943,6 +1943,31 @@ class ScriptAbs:
 
     def getitem(self, interp, idx, node):
         return self.getter(interp, idx, node)
+
+
+class _GuardedIter:
+    """Iteration over a host dict / dict view / set: CPython raises RuntimeError when the container changes size while it
+    is being iterated (checked when the next element is asked for)."""
+
+    def __init__(self, interp, container, items, node):
+        self.interp, self.container, self.items, self.node = interp, container, items, node
+        self.n0 = self._size()
+
+    def _size(self):
+        c = self.container
+        return len(c.entries) if isinstance(c, PDict) else len(c.items)
+
+    def __len__(self):
+        return len(self.items)
+
+    def __iter__(self):
+        for x in self.items:
+            if self._size() != self.n0:
+                self.interp.throw("RuntimeError", "dictionary changed size during iteration" if isinstance(self.container, PDict)
+                                  else "Set changed size during iteration", self.node)
+            yield x
+        if self._size() != self.n0 and self.items:
+            self.interp.throw("RuntimeError", "container changed size during iteration", self.node)
 
 
 class _LiveListIter:
